@@ -256,6 +256,9 @@ impl<TStdlib: Stdlib, TStdIn: Input, TStdOut: Printer, TLpt1: Printer> Interpret
                             pc: i,
                             error: &e,
                             dispatch: match ctx.error_handler {
+                                ErrorHandler::Address(_) if self.last_error_address.is_some() => {
+                                    VmDispatch::Unhandled
+                                }
                                 ErrorHandler::Address(a) => VmDispatch::Handler(a),
                                 ErrorHandler::Next => {
                                     VmDispatch::Next(ctx.nearest_statement_finder.find_next(i))
